@@ -428,6 +428,25 @@ def _as_text(x):
     return x
 
 
+class always_yield(object):
+    """TraphIteratorState.should_yield forced to True (harness process only, scoped)."""
+
+    def __enter__(self):
+        import traph.traph_iterator_state as tis
+        self.cls = tis.TraphIteratorState
+        self.old = self.cls.should_yield
+
+        def should_yield(self_, yield_frequency=1000):
+            self_.n_iterations += 1
+            return True
+        self.cls.should_yield = should_yield
+
+    def __exit__(self, *a):
+        self.cls.should_yield = self.old
+        return False
+
+
+
 def apply_op(ix, op):
     """Execute one request.  op is a dict with 'op' and concrete (bytes) arguments.
     Returns dict(exc=..., pages=..., created=..., ret=...)."""
@@ -438,6 +457,9 @@ def apply_op(ix, op):
         op = {k: (_as_text(v) if k in ("l", "ls", "pairs", "data", "ps", "p", "anchor") else v)
               for k, v in op.items()}
     res = {"exc": "", "pages": 0, "created": [], "ret": None}
+    ay = always_yield() if op.get("ay") else None      # every loop iteration of the request a yield point
+    if ay is not None:
+        ay.__enter__()
     try:
         with warnings.catch_warnings(), time_limit():
             warnings.simplefilter("ignore")
@@ -504,6 +526,9 @@ def apply_op(ix, op):
     except Exception as e:  # the outcome of the request, judged by the spec
         res["exc"] = exc_name(e)
         res["msg"] = repr(e)[:200]
+    finally:
+        if ay is not None:
+            ay.__exit__(None, None, None)
     return res
 
 
